@@ -165,20 +165,20 @@ Definition put_rm (s : mstate) (pt : N) (rm : rmk) : mstate :=
 Definition clear_rmk (rm : rmk) : rmk :=
   match rm with RMPlain s => RMPlain (rm_clear s) | RMDom s => RMDom (dm_clear s) end.
 
-(* CoreEnforcer.build_role_links (316-322): clear every manager, then relink g, then g2 *)
+(* CoreEnforcer.build_role_links (316-322): clear every manager, then relink g, then g2.
+   A model without a role definition has no such rule list at all; in this model its list is then
+   always empty (grouping calls on an undefined type are refused in [step], [deliver] drops such
+   rows), so relinking it unconditionally is the same as skipping it. *)
 Definition build_role_links (k : mkind) (s : mstate) : mstate * option N :=
   let s0 := set_rm2 (set_rm s (clear_rmk (m_rm s))) (rm_clear (m_rm2 s)) in
-  if negb (k_g k) then (s0, None)
-  else
-    let '(rm, e) := links_add (g_count k PT_G) (m_rm s0) (m_g s0) EGroupArity in
-    let s1 := set_rm s0 rm in
-    match e with
-    | Some c => (s1, Some c)
-    | None =>
-        if negb (k_g2 k) then (s1, None)
-        else let '(rm2, e2) := links_add 2 (RMPlain (m_rm2 s1)) (m_g2 s1) EGroupArity in
-             (put_rm s1 PT_G2 rm2, e2)
-    end.
+  let '(rm, e) := links_add (g_count k PT_G) (m_rm s0) (m_g s0) EGroupArity in
+  let s1 := set_rm s0 rm in
+  match e with
+  | Some c => (s1, Some c)
+  | None =>
+      let '(rm2, e2) := links_add 2 (RMPlain (m_rm2 s1)) (m_g2 s1) EGroupArity in
+      (put_rm s1 PT_G2 rm2, e2)
+  end.
 
 (* ---------- the decision procedure ---------- *)
 Definition g_link (rm : rmk) (a b : name) (d : name) : bool :=
@@ -525,16 +525,16 @@ Definition or_val (v1 v2 : val) : val :=
   | _ => v1
   end.
 
+Definition is_err (v : val) : bool :=
+  match v with VL [VN c; _] => c =? 999 | _ => false end.
+
 Definition seq2 (s : mstate) (f1 f2 : mstate -> mstate * outp) : mstate * outp :=
   let '(s1, o1) := f1 s in
-  match o_val o1 with
-  | VL [VN 999; _] => (s1, o1)
-  | _ => let '(s2, o2) := f2 s1 in
-         match o_val o2 with
-         | VL [VN 999; _] => (s2, mkOut (o_val o2) (o_acalls o1 ++ o_acalls o2) (o_wcalls o1 ++ o_wcalls o2))
-         | _ => (s2, mkOut (or_val (o_val o1) (o_val o2)) (o_acalls o1 ++ o_acalls o2) (o_wcalls o1 ++ o_wcalls o2))
-         end
-  end.
+  if is_err (o_val o1) then (s1, o1)
+  else let '(s2, o2) := f2 s1 in
+       if is_err (o_val o2)
+       then (s2, mkOut (o_val o2) (o_acalls o1 ++ o_acalls o2) (o_wcalls o1 ++ o_wcalls o2))
+       else (s2, mkOut (or_val (o_val o1) (o_val o2)) (o_acalls o1 ++ o_acalls o2) (o_wcalls o1 ++ o_wcalls o2)).
 
 (* ----- load_policy (core_enforcer.py:219-252) ----- *)
 (* adapter.load_policy: rows delivered in order, appended to their policy type; fails after n rows *)
@@ -547,9 +547,11 @@ Fixpoint deliver (k : mkind) (rows : list (N * rule)) (fail_at : option nat) (p 
       | [] => match fail_at with Some _ => Err EAdapterFail | None => Ok (p, g, g2) end
       | (pt, r) :: rest =>
           let fa := match fail_at with Some (S n) => Some n | x => x end in
+          (* load_policy_line: rows of a policy type the model does not define are ignored *)
           if pt =? PT_P then deliver k rest fa (p ++ [r]) g g2
           else if pt =? PT_G then (if k_g k then deliver k rest fa p (g ++ [r]) g2 else deliver k rest fa p g g2)
-          else (if k_g2 k then deliver k rest fa p g (g2 ++ [r]) else deliver k rest fa p g g2)
+          else if pt =? PT_G2 then (if k_g2 k then deliver k rest fa p g (g2 ++ [r]) else deliver k rest fa p g g2)
+          else deliver k rest fa p g g2
       end
   end.
 
@@ -572,10 +574,10 @@ Definition load_policy (k : mkind) (s : mstate) (fail_at : option nat) : mstate 
       end
   end.
 
+(* save_policy walks model["p"] then model["g"]; the rule list of an undefined role definition is
+   always empty in this model (see build_role_links), so it is not special-cased *)
 Definition all_rows (k : mkind) (s : mstate) : list (N * rule) :=
-  map (fun r => (PT_P, r)) (m_p s)
-  ++ (if k_g k then map (fun r => (PT_G, r)) (m_g s) else [])
-  ++ (if k_g2 k then map (fun r => (PT_G2, r)) (m_g2 s) else []).
+  map (fun r => (PT_P, r)) (m_p s) ++ map (fun r => (PT_G, r)) (m_g s) ++ map (fun r => (PT_G2, r)) (m_g2 s).
 
 (* ----- one step ----- *)
 Definition wrap_b (x : mstate * bool * list acall * list wcall) : mstate * outp :=
@@ -584,13 +586,24 @@ Definition wrap_b (x : mstate * bool * list acall * list wcall) : mstate * outp 
 Definition res_names (s : mstate) (r : result (list name)) : mstate * outp :=
   match r with Ok l => (s, out_v (ok (VL (map VN l)))) | Err c => (s, out_v (verr c)) end.
 
+(* is the policy type defined by the model?  (model["g"] may not exist at all) *)
+Definition has_pt (k : mkind) (pt : N) : bool :=
+  if pt =? PT_P then true else if pt =? PT_G then k_g k else k_g2 k.
+
 Definition step (k : mkind) (s : mstate) (o : op) : mstate * outp :=
   match o with
-  | OAdd pt r => if is_g pt then g_add k s pt r else wrap_b (i_add k s pt r)
-  | OAddMany pt rs => if is_g pt then g_add_many k s pt rs else wrap_b (i_add_many k s pt rs)
-  | ORemove pt r => if is_g pt then g_remove k s pt r else wrap_b (i_remove k s pt r)
-  | ORemoveMany pt rs => if is_g pt then g_remove_many k s pt rs else wrap_b (i_remove_many k s pt rs)
-  | ORemoveFiltered pt i vs => if is_g pt then g_remove_filtered k s pt i vs else p_remove_filtered k s i vs
+  (* a grouping call on a model without that role definition: add* fail on model["g"][ptype]
+     (TypeError / KeyError); remove* find nothing (policy.py:106-111, 255-258) *)
+  | OAdd pt r => if negb (has_pt k pt) then (s, out_v (verr EType)) else
+                 if is_g pt then g_add k s pt r else wrap_b (i_add k s pt r)
+  | OAddMany pt rs => if negb (has_pt k pt) then (s, out_v (verr EType)) else
+                      if is_g pt then g_add_many k s pt rs else wrap_b (i_add_many k s pt rs)
+  | ORemove pt r => if negb (has_pt k pt) then (s, out_v (ok (vbool false))) else
+                    if is_g pt then g_remove k s pt r else wrap_b (i_remove k s pt r)
+  | ORemoveMany pt rs => if negb (has_pt k pt) then (s, out_v (ok (vbool false))) else
+                         if is_g pt then g_remove_many k s pt rs else wrap_b (i_remove_many k s pt rs)
+  | ORemoveFiltered pt i vs => if negb (has_pt k pt) then (s, out_v (ok (vrules []))) else
+                               if is_g pt then g_remove_filtered k s pt i vs else p_remove_filtered k s i vs
   | OUpdate o n =>
       match update_policy (prio_tok k PT_P) (m_p s) o n with
       | Err c => (s, out_v (verr c))
@@ -638,11 +651,12 @@ Definition step (k : mkind) (s : mstate) (o : op) : mstate * outp :=
   | OAddPermissionForUser u vs => wrap_b (i_add k s PT_P (u :: vs))
   | ODeletePermissionForUser u vs => wrap_b (i_remove k s PT_P (u :: vs))
   | ODeletePermissionsForUser u => p_remove_filtered k s 0 [u]
-  | OAddRoleForUser u r => g_add k s PT_G [u; r]
-  | ODeleteRoleForUser u r => g_remove k s PT_G [u; r]
-  | ODeleteRolesForUser u => g_remove_filtered k s PT_G 0 [u]
-  | OAddRoleForUserInDomain u r d => g_add k s PT_G [u; r; d]
-  | ODeleteRolesForUserInDomain u r d => g_remove_filtered k s PT_G 0 [u; r; d]
+  | OAddRoleForUser u r => if k_g k then g_add k s PT_G [u; r] else (s, out_v (verr EType))
+  | ODeleteRoleForUser u r => if k_g k then g_remove k s PT_G [u; r] else (s, out_v (ok (vbool false)))
+  | ODeleteRolesForUser u => if k_g k then g_remove_filtered k s PT_G 0 [u] else (s, out_v (ok (vrules [])))
+  | OAddRoleForUserInDomain u r d => if k_g k then g_add k s PT_G [u; r; d] else (s, out_v (verr EType))
+  | ODeleteRolesForUserInDomain u r d =>
+      if k_g k then g_remove_filtered k s PT_G 0 [u; r; d] else (s, out_v (ok (vrules [])))
   | OClear =>
       (* clear_policy (repaired): rules gone, and with auto-build the role links with them *)
       let s1 := mkM [] [] [] (m_rm s) (m_rm2 s) (m_auto_save s) (m_auto_build s) (m_auto_notify s) (m_enabled s) (m_db s) (m_prio_on s) in
